@@ -60,7 +60,9 @@ def structured(seed, out):
                 prop("ext%sQ1" % l, [A], ["xsd:string"], r.random() < 0.5),
                 prop("ext%sQ2" % l, ["Place"], ["xsd:float"], True, [V] if r.random() < 0.4 else None),
                 prop("ext%sQ3" % l, [V, "Event"], [ref(A, own), "xsd:anyURI"], False)]
-    doc = {"@context": CONTEXT, "id": "http://ext.example/ns#", "type": "owl:Ontology", "name": "ExtVocab", "members": members}
+    # this mode spells the ActivityStreams namespace with http (the random mode with https): the same vocabulary
+    ctx = [dict(CONTEXT[0], **{"as": "http://www.w3.org/ns/activitystreams"}), CONTEXT[1]]
+    doc = {"@context": ctx, "id": "http://ext.example/ns#", "type": "owl:Ontology", "name": "ExtVocab", "members": members}
     json.dump(doc, open(out, "w"), indent=1)
 
 
